@@ -21,16 +21,27 @@ pub fn sign(cx: &mut Cx) {
     let giant_message = cx.run_index % 97 == 13;
     if giant_message { cx.count("probe.message_of_16_MiB"); }
     if cx.thorough && cx.run_index == 7 { k = 17000; cx.count("probe.credential_of_17000_messages"); }
+    // the two octet strings with a length prefix or a length limit of their own walk through the
+    // edges of those encodings as well: the header (8-octet prefix, no limit: 2^16 and beyond are
+    // legal) and key_info (2-octet prefix: 65535 is the largest legal length)
+    const HEADER_LENS: [usize; 9] = [5, 0, 1, 255, 256, 65535, 65536, 70000, 1 << 20];
+    const KEY_INFO_LENS: [usize; 7] = [0, 1, 255, 256, 65534, 65535, 32];
+    let hl = HEADER_LENS[(cx.run_index % 9) as usize];
+    let kl = KEY_INFO_LENS[((cx.run_index / 9) % 7) as usize];
+    if hl >= 65536 { cx.count("probe.header_of_65536_octets_or_more"); }
+    if kl == 65535 { cx.count("probe.key_info_of_65535_octets"); }
     cx.step(node, "sweep-sign", StepOpts::default(), move || {
-        let (sk, pk) = api::keygen(suite, &bytes_for(seed, b"sw-ikm", 0, 32), None, None)?;
+        let header = if hl == 5 { b"sweep".to_vec() } else { bytes_for(seed, b"sw-h", 0, hl) };
+        let key_info = if kl == 0 { None } else { Some(bytes_for(seed, b"sw-ki", 0, kl)) };
+        let (sk, pk) = api::keygen(suite, &bytes_for(seed, b"sw-ikm", 0, 32), key_info.as_deref(), None)?;
         let mut msgs: Vec<Bytes> = (0..k).map(|i| bytes_for(seed, b"sw-m", i as u64, 1 + i % 23)).collect();
         if giant_message { msgs.push(vec![0x5a; (1 << 24) + 1]); }
-        let (sig, ok) = api::sign_and_selfcheck(suite, &sk, &pk, &Some(b"sweep".to_vec()), &Some(msgs.clone()))?;
+        let (sig, ok) = api::sign_and_selfcheck(suite, &sk, &pk, &Some(header.clone()), &Some(msgs.clone()))?;
         if !ok { return Err("the fresh signature does not verify in memory".into()); }
-        match api::verify(suite, &pk, &sig, &Some(b"sweep".to_vec()), &Some(msgs)) { api::Res::Accept => Ok(()), r => Err(format!("verify after the octet round trip: {r:?}")) }
+        match api::verify(suite, &pk, &sig, &Some(header), &Some(msgs)) { api::Res::Accept => Ok(()), r => Err(format!("verify after the octet round trip: {r:?}")) }
     }, move |cx, st| {
-        cx.eval(&[b"sweep-sign", &(k as u64).to_le_bytes(), suite.name().as_bytes()], true);
-        match st.out { Ok(Ok(())) => cx.count("verdict.MustAccept.accept"), other => cx.violation("C01", "size-sweep/sign-verify".into(), format!("suite={} L={k}: {other:?}", suite.name())) }
+        cx.eval(&[b"sweep-sign", &(k as u64).to_le_bytes(), suite.name().as_bytes(), &(hl as u64).to_le_bytes(), &(kl as u64).to_le_bytes()], true);
+        match st.out { Ok(Ok(())) => cx.count("verdict.MustAccept.accept"), other => cx.violation("C01", "size-sweep/sign-verify".into(), format!("suite={} L={k} header of {hl} octets, key_info of {kl} octets: {other:?}", suite.name())) }
     });
     cx.run();
 }
@@ -56,6 +67,60 @@ pub fn proof(cx: &mut Cx) {
     }, move |cx, st| {
         cx.eval(&[b"sweep-proof", &(k as u64).to_le_bytes(), suite.name().as_bytes(), &[disclose_some as u8]], true);
         match st.out { Ok(Ok(())) => cx.count("verdict.MustAccept.accept"), other => cx.violation("C03", "size-sweep/proof_gen-proof_verify".into(), format!("suite={} L={k} some_disclosed={disclose_some}: {other:?}", suite.name())) }
+    });
+    cx.run();
+}
+
+/// the shape of a JSON document: keys and nesting kept, every string replaced by its length,
+/// numbers and booleans kept as they are
+fn json_shape(v: &serde_json::Value) -> serde_json::Value {
+    use serde_json::Value as V;
+    match v {
+        V::String(s) => V::from(s.len()),
+        V::Array(a) => V::Array(a.iter().map(json_shape).collect()),
+        V::Object(o) => V::Object(o.iter().map(|(k, x)| (k.clone(), json_shape(x))).collect()),
+        other => V::String(other.to_string()),
+    }
+}
+
+/// C03, "reveals nothing else about message count or sizes", for BOTH forms a proof is shipped in:
+/// two credentials of different sizes (L and L + d messages, the messages of the second also
+/// longer), presented with the same number U of undisclosed messages, give proofs of the same
+/// octet length AND of the same JSON shape (the serde text of the fresh object, as an application
+/// that ships the serde form sends it: same members, same string lengths, no number that differs)
+pub fn proof_shape(cx: &mut Cx) {
+    let suite = Suite::from_idx(cx.run_index);
+    let seed = cx.run_seed;
+    let u = cx.ch.choose("shape_U", 5) as usize;
+    let d = 1 + cx.ch.choose("shape_d", 6) as usize;
+    let node = cx.node("shaper");
+    cx.count("probe.proof_shape_compared_across_credential_sizes");
+    cx.step(node, "proof-shape", StepOpts::default(), move || {
+        let (sk, pk) = api::keygen(suite, &bytes_for(seed, b"sh-ikm", 0, 32), None, None)?;
+        let mut out = Vec::new();
+        for (l, mlen) in [(u, 3usize), (u + d, 40)] {
+            let msgs: Vec<Bytes> = (0..l).map(|i| bytes_for(seed, b"sh-m", i as u64, mlen)).collect();
+            let sig = api::sign(suite, &sk, &pk, &Some(b"shape".to_vec()), &Some(msgs.clone()))?;
+            let didx: Vec<usize> = (u..l).collect(); // the last l - u positions are disclosed
+            let (octets, json) = api::proof_gen_with_json(suite, &pk, &sig, &Some(b"shape".to_vec()), &Some(b"ph".to_vec()), &Some(msgs.clone()), &Some(didx.clone()))?;
+            let dm: Vec<Bytes> = didx.iter().map(|&i| msgs[i].clone()).collect();
+            let ok_json = matches!(api::proof_verify_json(suite, &pk, &json, &Some(b"shape".to_vec()), &Some(b"ph".to_vec()), &Some(dm), &Some(didx)), api::Res::Accept);
+            let v: serde_json::Value = serde_json::from_str(&json).map_err(|e| e.to_string())?;
+            out.push((l, octets.len(), json_shape(&v).to_string(), ok_json));
+        }
+        Ok::<_, String>(out)
+    }, move |cx, st| {
+        cx.eval(&[b"proof-shape", suite.name().as_bytes(), &[u as u8, d as u8]], true);
+        match st.out {
+            Ok(Ok(v)) => {
+                let (a, b) = (&v[0], &v[1]);
+                if !a.3 || !b.3 { cx.violation("C03", "proof/serde-form-of-a-fresh-proof-does-not-verify".into(), format!("suite={} U={u}: L={} {}, L={} {}", suite.name(), a.0, a.3, b.0, b.3)); }
+                if a.1 != 272 + 32 * u || b.1 != 272 + 32 * u { cx.violation("C03", "proof/length".into(), format!("suite={} U={u}: {} and {} octets", suite.name(), a.1, b.1)); }
+                if a.2 != b.2 { cx.violation("C03", "proof/serde-form-depends-on-the-number-of-signed-messages".into(), format!("suite={} U={u}: the JSON shape of a proof over L={} messages is {} and over L={} messages {}", suite.name(), a.0, a.2, b.0, b.2)); }
+                else { cx.count("verdict.MustAccept.accept"); }
+            }
+            other => cx.violation("C03", "proof/shape-flow-failed".into(), format!("suite={} U={u} d={d}: {other:?}", suite.name())),
+        }
     });
     cx.run();
 }
@@ -137,7 +202,9 @@ pub fn bigproof(cx: &mut Cx) {
 /// that gives up once in a few hundred thousand scalars (a health test, a bounded retry) fails a
 /// proof generation just as rarely; this asks for enough scalars to meet such a rate.
 pub fn draw_counts(cx: &mut Cx) {
-    let calls = if cx.thorough { 1500usize } else { 400 };
+    // quick: 1.2 million scalars on one thread (past 2^20, where a counter-driven reseed or health
+    // test of a per-thread generator would sit); thorough: 3 million
+    let calls = if cx.thorough { 1500usize } else { 600 };
     let node = cx.node("sweeper");
     cx.count("probe.random_draw_count_volume");
     cx.step(node, "draw-counts", StepOpts::default(), move || {
